@@ -35,7 +35,7 @@ man = {
                  "kind_free_text": "Hypothesis 6.168 generators (16 seeded shards per part) + exhaustive itertools enumeration of finite sub-domains, explicit oracles (reference models, round trips, metamorphic relations), collect-then-shrink per root-cause bucket, JSON replay files"}],
     "checks": checks,
     "not_applicable": na,
-    "notes": "All checks: exit 0 held / exit 1 + VIOLATION line / exit 2 harness error (inconclusive). VERIF_SEED selects the Hypothesis seeds. known_findings.json lists fixed and known defects.",
+    "notes": "All checks: exit 0 held / exit 1 + VIOLATION line / exit 2 harness error (inconclusive). VERIF_SEED selects the Hypothesis seeds. known_findings.json lists fixed and known defects. Every run evaluates a quarter of its cases with the package's debug logging on and repeats 20 % of them in a child interpreter with PYTHONOPTIMIZE=2 (violations found there are reported as '[python -O] bucket=...' with an ordinary VIOLATION line; their replay files carry the mode).",
 }
 json.dump(man, open(os.path.join(HERE, "MANIFEST.json"), "w"), indent=1)
 print("checks:", [c["property_id"] for c in checks], "n/a:", len(na))
